@@ -96,27 +96,116 @@ Proof.
 Qed.
 End FileOrderProofs.
 
-(* restoreLog's comparator on decimal names (length first, then string order) is the numeric order - finite table *)
-Definition name_table_bound := 260.
-Lemma name_ltb_numeric_table :
-  forallb (fun a => forallb (fun b => Bool.eqb (name_ltb a b) (Nat.ltb a b)) (seq 0 name_table_bound)) (seq 0 name_table_bound) = true.
-Proof. vm_compute. reflexivity. Qed.
+(* restoreLog's comparator on decimal names (shorter name first, then string order) is the numeric order, for ALL numbers *)
+(* value of a digit list, most significant first *)
+Definition dval (ds : list nat) : nat := fold_left (fun a d => 10 * a + d) ds 0.
+Definition dvalacc (a : nat) (ds : list nat) : nat := fold_left (fun a d => 10 * a + d) ds a.
 
-Lemma name_ltb_numeric a b : a < name_table_bound -> b < name_table_bound -> name_ltb a b = Nat.ltb a b.
+Lemma dvalacc_app a ds : dvalacc a ds = a * 10 ^ length ds + dval ds.
 Proof.
-  intros Ha Hb. pose proof name_ltb_numeric_table as H. rewrite forallb_forall in H.
-  specialize (H a). rewrite forallb_forall in H. apply Bool.eqb_prop. apply H; apply in_seq; lia.
+  unfold dval, dvalacc. revert a. induction ds as [|d ds IH]; intro a; cbn [fold_left length].
+  - cbn. lia.
+  - rewrite IH. rewrite (IH (10 * 0 + d)). cbn [Nat.pow]. nia.
+Qed.
+
+Lemma dval_cons d ds : dval (d :: ds) = d * 10 ^ length ds + dval ds.
+Proof. unfold dval at 1. cbn [fold_left]. change (fold_left _ ds (10 * 0 + d)) with (dvalacc (10 * 0 + d) ds). rewrite dvalacc_app. lia. Qed.
+
+Definition small (ds : list nat) : Prop := Forall (fun d => d < 10) ds.
+
+Lemma dval_bound ds : small ds -> dval ds < 10 ^ length ds.
+Proof.
+  induction 1 as [|d ds Hd _ IH]; [cbn; lia|]. rewrite dval_cons. cbn [length Nat.pow]. nia.
+Qed.
+
+(* equal length: string order = numeric order *)
+Lemma lex_ltb_val a : forall b, length a = length b -> small a -> small b -> lex_ltb a b = Nat.ltb (dval a) (dval b).
+Proof.
+  induction a as [|x a IH]; intros [|y b] Hl Ha Hb; try discriminate; [reflexivity|].
+  cbn [lex_ltb]. inversion Ha; subst. inversion Hb; subst. cbn in Hl. injection Hl as Hl.
+  rewrite !dval_cons, <- Hl. pose proof (dval_bound a H2). pose proof (dval_bound b H4). rewrite <- Hl in H0.
+  rewrite (IH b Hl H2 H4).
+  destruct (Nat.ltb_spec x y); cbn [orb].
+  - symmetry. apply Nat.ltb_lt. nia.
+  - destruct (Nat.eqb_spec x y); cbn [andb].
+    + subst. destruct (Nat.ltb_spec (dval a) (dval b)); symmetry; [apply Nat.ltb_lt | apply Nat.ltb_ge]; nia.
+    + symmetry. apply Nat.ltb_ge. nia.
+Qed.
+
+(* canonical: digits below ten, no leading zero *)
+Definition canon (ds : list nat) : Prop := small ds /\ match ds with [] => False | d :: r => d <> 0 \/ r = [] end.
+
+Lemma canon_lower d r : canon (d :: r) -> r <> [] -> 10 ^ length r <= dval (d :: r).
+Proof.
+  intros [Hs Hh] Hr. rewrite dval_cons. destruct Hh as [Hh|Hh]; [|contradiction]. nia.
+Qed.
+
+Lemma shorter_smaller a b : canon a -> canon b -> length a < length b -> dval a < dval b.
+Proof.
+  intros Ha Hb Hl. destruct Ha as [Hsa Hha]. pose proof (dval_bound a Hsa).
+  destruct b as [|d r]; [destruct Hb as [_ []]|].
+  assert (Hr : r <> []) by (intro; subst; cbn in Hl; destruct a; [destruct Hha | cbn in Hl; lia]).
+  pose proof (canon_lower d r Hb Hr). cbn [length] in Hl.
+  assert (10 ^ length a <= 10 ^ length r) by (apply Nat.pow_le_mono_r; lia). lia.
+Qed.
+
+(* the digits function yields the canonical representation *)
+Lemma digits_fuel_S f n acc :
+  digits_fuel (S f) n acc = if Nat.ltb n 10 then n :: acc else digits_fuel f (Nat.div n 10) (Nat.modulo n 10 :: acc).
+Proof. reflexivity. Qed.
+
+Lemma digits_fuel_spec f : forall n acc, n <= f -> small acc ->
+  small (digits_fuel (S f) n acc) /\ dval (digits_fuel (S f) n acc) = n * 10 ^ length acc + dval acc /\
+  (exists d r, digits_fuel (S f) n acc = d :: r /\ (d <> 0 \/ (n = 0 /\ r = acc))) .
+Proof.
+  induction f as [|f IH]; intros n acc Hn Hacc; rewrite digits_fuel_S; destruct (Nat.ltb_spec n 10) as [Hlt|Hge].
+  - repeat split.
+    + constructor; assumption.
+    + rewrite dval_cons. lia.
+    + exists n, acc. split; [reflexivity|]. destruct n; [right; auto | left; lia].
+  - lia.
+  - repeat split.
+    + constructor; assumption.
+    + rewrite dval_cons. lia.
+    + exists n, acc. split; [reflexivity|]. destruct n; [right; auto | left; lia].
+  - assert (Hd : n / 10 <= f).
+    { assert (n / 10 < n) by (apply Nat.div_lt; lia). lia. }
+    assert (Hm : n mod 10 < 10) by (apply Nat.mod_upper_bound; lia).
+    destruct (IH (n / 10) (n mod 10 :: acc) Hd) as [H1 [H2 [d [r [E H3]]]]]; [constructor; assumption|].
+    repeat split.
+    + exact H1.
+    + rewrite H2. rewrite dval_cons. cbn [length Nat.pow].
+      pose proof (Nat.div_mod n 10). nia.
+    + exists d, r. split; [exact E|]. left. destruct H3 as [H3|[H3 _]]; [exact H3|].
+      exfalso. assert (n / 10 > 0) by (apply Nat.div_str_pos; lia). lia.
+Qed.
+
+Lemma digits_canon n : canon (digits n) /\ dval (digits n) = n.
+Proof.
+  unfold digits. destruct (digits_fuel_spec n n [] (le_n n)) as [H1 [H2 [d [r [E H3]]]]]; [constructor|].
+  change (dval []) with 0 in H2. cbn [length Nat.pow] in H2. split; [|lia]. split; [exact H1|]. rewrite E. destruct H3 as [H3|[_ H3]]; [left; exact H3 | right; exact H3].
+Qed.
+
+Theorem name_ltb_is_numeric a b : name_ltb a b = Nat.ltb a b.
+Proof.
+  unfold name_ltb. destruct (digits_canon a) as [Ca Va]. destruct (digits_canon b) as [Cb Vb].
+  destruct (Nat.ltb_spec (length (digits a)) (length (digits b))) as [Hl|Hl]; cbn [orb].
+  - symmetry. apply Nat.ltb_lt. rewrite <- Va, <- Vb. apply shorter_smaller; assumption.
+  - destruct (Nat.eqb_spec (length (digits a)) (length (digits b))) as [He|He]; cbn [andb].
+    + rewrite (lex_ltb_val _ _ He (proj1 Ca) (proj1 Cb)). rewrite Va, Vb. reflexivity.
+    + symmetry. apply Nat.ltb_ge. rewrite <- Va, <- Vb.
+      assert (length (digits b) < length (digits a)) by lia.
+      pose proof (shorter_smaller _ _ Cb Ca H). lia.
 Qed.
 
 Theorem restore_code_order {B} (created listing : list (@wfile B)) :
   StronglySorted klt created -> Permutation listing created ->
-  (forall f, In f created -> fst f < name_table_bound) ->
   restore_records name_ltb listing = concat (map snd created).
 Proof.
-  intros Hs Hp Hb. unfold restore_records. f_equal. f_equal.
+  intros Hs Hp. unfold restore_records. f_equal. f_equal.
   rewrite (sort_ext name_ltb Nat.ltb listing).
   - apply restore_numeric; assumption.
-  - intros x y Hx Hy. apply name_ltb_numeric; apply Hb; eapply Permutation_in; try exact Hp; assumption.
+  - intros x y _ _. apply name_ltb_is_numeric.
 Qed.
 
 (* the plain string comparison reads 10.wal before 9.wal *)
